@@ -418,6 +418,16 @@ func (w *walker) randomize(r *Rng) {
 		ds[i] = strconv.Itoa(d)
 	}
 	s := cm.snap()
+	if strings.HasPrefix(outcome, "panic:scripted random source") {
+		// Randomize() spins: the limit-seeking loop has toggled every action it could, none was invalid, and
+		// attempts remain (it `continue`s without using an attempt when the drawn action is already in the
+		// target state).  Not a C01 matter; recorded, and the model is re-synchronised through a whole-set
+		// load of the state the loop left (whose values must still be canonical).
+		w.c.Stat(w.tag + " randomize spins (all remaining toggles valid, attempts left)")
+		w.op("setall "+strings.ReplaceAll(bitsStr(s.flags), "-", ""), cm.dumpSnap(s))
+		w.checkState("randomize (spinning, interrupted)", s)
+		return
+	}
 	line := strings.TrimSpace("randomize " + strings.Join(ds, " "))
 	w.op(line, outcome+" "+cm.dumpSnap(s))
 	w.c.Stat(w.tag + " randomize " + clip(outcome, 20))
